@@ -37,6 +37,11 @@ Variable cop : crs -> crs -> crs -> crs.
    diagonal entry; strength flags of skipped rows before /repo 7bd138f) *)
 Variable junk : nat -> vec.
 Variable junkf : nat -> flags.
+(* what the coarsening WRAPPER does to an operator of the base coarsening before handing it to amg
+   (None = it throws): nothing for a coarsening class used directly ([Some]); for
+   coarsening::as_scalar on a block backend the conversion of the (row-sorted) scalar operator to
+   block values and -- in the expanded view of AmgBlock.v -- back ([as_scalar_prep]) *)
+Variable prep : crs -> option crs.
 
 Fixpoint build_full (k : nat) (pol : @policy S) (A : crs) (lev : nat) : @full_result S :=
   if Nat.leb (nrows A) coarse_enough then
@@ -49,10 +54,14 @@ Fixpoint build_full (k : nat) (pol : @policy S) (A : crs) (lev : nat) : @full_re
     | StepPrecond => FullPrecond
     | StepOob => FullOob
     | StepOk P R _ pol' =>
-      let P' := sort_rows P in let R' := sort_rows R in
-      match build_full k' pol' (sort_rows (cop A P' R')) (Datatypes.S lev) with
-      | FullOk tl => FullOk (LMid A P' R' :: tl)
-      | e => e
+      match prep P, prep R with
+      | Some Pc, Some Rc =>
+        let P' := sort_rows Pc in let R' := sort_rows Rc in
+        match build_full k' pol' (sort_rows (cop A P' R')) (Datatypes.S lev) with
+        | FullOk tl => FullOk (LMid A P' R' :: tl)
+        | e => e
+        end
+      | _, _ => FullPrecond
       end
     end
   end.
@@ -66,7 +75,11 @@ Fixpoint full_transfers (k : nat) (pol : @policy S) (A : crs) (lev : nat) : list
   | Datatypes.S k' =>
     match coarsen_step nt pol A (junk lev) (junkf lev) with
     | StepOk P R _ pol' =>
-      Some (P, R) :: full_transfers k' pol' (sort_rows (cop A (sort_rows P) (sort_rows R))) (Datatypes.S lev)
+      match prep P, prep R with
+      | Some Pc, Some Rc =>
+        Some (Pc, Rc) :: full_transfers k' pol' (sort_rows (cop A (sort_rows Pc) (sort_rows Rc))) (Datatypes.S lev)
+      | _, _ => [None]
+      end
     | _ => [None]
     end
   end.
@@ -76,8 +89,9 @@ Fixpoint full_transfers (k : nat) (pol : @policy S) (A : crs) (lev : nat) : list
 Fixpoint full_chain (pol : @policy S) (lev : nat) (ls : list (@ldesc S)) : Prop :=
   match ls with
   | LMid A P R :: tl =>
-    exists P0 R0 Ac pol', coarsen_step nt pol A (junk lev) (junkf lev) = StepOk P0 R0 Ac pol' /\
-      P = sort_rows P0 /\ R = sort_rows R0 /\ full_chain pol' (Datatypes.S lev) tl
+    exists P0 R0 Ac pol' Pc Rc, coarsen_step nt pol A (junk lev) (junkf lev) = StepOk P0 R0 Ac pol' /\
+      prep P0 = Some Pc /\ prep R0 = Some Rc /\
+      P = sort_rows Pc /\ R = sort_rows Rc /\ full_chain pol' (Datatypes.S lev) tl
   | _ :: tl => tl = []             (* a level without transfer operators is the last one *)
   | [] => True
   end.
@@ -86,5 +100,15 @@ End Full.
 
 (* amg(M, prm): copy, sort rows, do_init *)
 Definition amg_init_full {S : Scalar} (ce : nat) (dc : bool) (ml nt : nat) (junk : nat -> vec S) (junkf : nat -> flags)
-  (pol : @policy S) (M : crs S) : @full_result S :=
-  build_full ce dc nt (policy_cop pol) junk junkf (ml - 1) pol (sort_rows M) 0.
+  (prep : crs S -> option (crs S)) (pol : @policy S) (M : crs S) : @full_result S :=
+  build_full ce dc nt (policy_cop pol) junk junkf prep (ml - 1) pol (sort_rows M) 0.
+
+(* coarsening::as_scalar<C>::type<Backend>::transfer_operators for b x b block values, in the expanded
+   view: the base operator X (a scalar matrix) is row-sorted, read through adapter::block_matrix into
+   crs<block> (MatOps2.block_matrix; None = "Matrix size is not divisible by block size!") and printed
+   expanded again (MatOps2.unblock_matrix: every stored block contributes all its cells, zeros included) *)
+Definition as_scalar_prep {S : Scalar} (b : nat) (X : crs S) : option (crs S) :=
+  match block_matrix (sort_rows X) b with
+  | Some B => Some (unblock_matrix b B)
+  | None => None
+  end.
